@@ -281,6 +281,8 @@ pub enum IoOp {
     SeekCurrent(i32),
     SeekEnd(i32),
     StreamPosition,
+    /// Seek::seek_relative: like any seek, sets the position to the offset the stream stands at afterwards
+    SeekRelative(i32),
     Write(u16),
     WriteVectored(Vec<u16>),
     WriteAll(u16),
@@ -417,6 +419,18 @@ fn run_io(c: &IoCase) -> CaseResult {
                     v.label("seek");
                 }
             }
+            IoOp::SeekRelative(d) => {
+                let d = *d as i64 % 64;
+                let (r1, r2) = (wrapped.seek_relative(d), plain.seek_relative(d));
+                same!(r1, r2);
+                if r1.is_ok() {
+                    let at = w_obj.st().pos as u64;
+                    v.label_if(at != e.pos.wrapping_add(d as u64), "relative_seek_while_out_of_step");
+                    e.pos = at;
+                    e.slack = 0;
+                    v.label("seek");
+                }
+            }
             IoOp::StreamPosition => {
                 let (r1, r2) = (wrapped.stream_position(), plain.stream_position());
                 same!(r1, r2);
@@ -498,6 +512,7 @@ fn io_strategy(tier: Tier) -> BoxedStrategy<IoCase> {
         1 => any::<i32>().prop_map(IoOp::SeekCurrent),
         1 => any::<i32>().prop_map(IoOp::SeekEnd),
         1 => Just(IoOp::StreamPosition),
+        1 => any::<i32>().prop_map(IoOp::SeekRelative),
         3 => (0u16..80).prop_map(IoOp::Write),
         2 => lens().prop_map(IoOp::WriteVectored),
         2 => (0u16..80).prop_map(IoOp::WriteAll),
@@ -530,6 +545,9 @@ pub enum ItOp {
     Nth(u8),
     /// internal iteration over the rest through by_ref(): 0 count, 1 last, 2 for_each, 3 sum, 4 skip(k).next()
     Rest(u8),
+    /// reset() through another handle of the bar: position 0, unfinished; the adaptor keeps counting from
+    /// there and the next end of the inner iterator finishes the bar again, the same configured way
+    ResetBar,
 }
 
 #[derive(Debug, Clone, Serialize, Deserialize)]
@@ -630,6 +648,12 @@ fn run_iter(c: &IterCase) -> CaseResult {
                 }
                 v.label("internal_iteration");
             }
+            ItOp::ResetBar => {
+                pb.reset();
+                v.label_if(exhausted, "reset_after_exhaustion");
+                yielded = 0;
+                exhausted = false;
+            }
             ItOp::Len => {
                 // (size_hint is not forwarded by the adaptor; only the explicitly implemented len() is compared)
                 ensure!(it.len() == plain.len(), "transparency", "{ctx}: len() differs");
@@ -709,7 +733,8 @@ fn decode_iter(u: &mut FuzzInput) -> IterCase {
             0..=7 => ItOp::Next,
             8..=11 => ItOp::NextBack,
             12 | 13 => ItOp::Len,
-            14 | 15 => ItOp::Nth(u.n(5) as u8),
+            14 => ItOp::Nth(u.n(5) as u8),
+            15 => ItOp::ResetBar,
             _ => ItOp::Rest(u.n(4) as u8),
         });
     }
@@ -725,7 +750,7 @@ fn iter_strategy(_t: Tier) -> BoxedStrategy<IterCase> {
         Just(Wrap::TryProgress),
         proptest::option::of(0u16..40).prop_map(Wrap::WrapIter),
     ];
-    let op = prop_oneof![8 => Just(ItOp::Next), 4 => Just(ItOp::NextBack), 2 => Just(ItOp::Len), 2 => (0u8..6).prop_map(ItOp::Nth), 1 => (0u8..5).prop_map(ItOp::Rest)];
+    let op = prop_oneof![8 => Just(ItOp::Next), 4 => Just(ItOp::NextBack), 2 => Just(ItOp::Len), 2 => (0u8..6).prop_map(ItOp::Nth), 1 => (0u8..5).prop_map(ItOp::Rest), 1 => Just(ItOp::ResetBar)];
     (0u16..30, wrap, 0u8..5, proptest::collection::vec(op, 0..40), any::<bool>(), prop_oneof![2 => Just(0u8), 3 => 1u8..8])
         .prop_map(|(n, wrap, finish, ops, drain, consume)| IterCase { n, wrap, finish, ops, drain, consume })
         .boxed()
@@ -759,7 +784,7 @@ pub struct AsyncCase {
     stream: Vec<Option<Option<u8>>>,
 }
 
-struct ScriptStream(VecDeque<Option<Option<u8>>>);
+pub(crate) struct ScriptStream(pub(crate) VecDeque<Option<Option<u8>>>);
 impl futures_core::Stream for ScriptStream {
     type Item = u8;
     fn poll_next(mut self: Pin<&mut Self>, _cx: &mut Context<'_>) -> Poll<Option<u8>> {
@@ -1133,23 +1158,23 @@ pub fn property() -> Property {
         parts: vec![
             Box::new(Gen::<IoCase> {
                 name: "io",
-                rule: "scripted source/sink (every primitive call result generated: full, short, zero, 5 error kinds) driven by 0-14 (thorough 30) calls of read/read_vectored/read_exact/read_to_string/read_line/fill_buf/consume/seek(Start|Current|End)/stream_position/write/write_vectored/write_all/write!/flush; wrapped vs unwrapped twin must return the same values, errors and data, position() must follow the transferred bytes; non-trivial = a short transfer, an error, a partial consume or a write_all failing mid-way",
+                rule: "scripted source/sink (every primitive call result generated: full, short, zero, 5 error kinds) driven by 0-14 (thorough 30) calls of read/read_vectored/read_exact/read_to_string/read_line/fill_buf/seek_relative/consume/seek(Start|Current|End)/stream_position/write/write_vectored/write_all/write!/flush; wrapped vs unwrapped twin must return the same values, errors and data, position() must follow the transferred bytes; non-trivial = a short transfer, an error, a partial consume or a write_all failing mid-way",
                 strategy: io_strategy,
                 cases: |t| t.pick(6_000, 300_000),
                 run: run_io,
                 signature: no_signature,
-                essential: &["short_transfer", "error", "partial_consume", "write_all_failed_midway", "seek", "vectored", "fill_buf", "read_into_non_empty_string"],
+                essential: &["short_transfer", "error", "partial_consume", "write_all_failed_midway", "seek", "vectored", "fill_buf", "read_into_non_empty_string", "relative_seek_while_out_of_step"],
                 workers: w,
                 decode: None,
             }),
             Box::new(Gen::<IterCase> {
                 name: "iter",
-                rule: "0..30 items through progress/progress_count/progress_with/try_progress/wrap_iter with each ProgressFinish, interleaved next/next_back/len, optional drain; items, len and size_hint equal the plain iterator, position == items yielded, exhaustion finishes per finish behaviour",
+                rule: "0..30 items through progress/progress_count/progress_with/try_progress/wrap_iter with each ProgressFinish, interleaved next/next_back/nth/len/internal iteration through by_ref()/reset() of the bar through another handle (the next end finishes it again the same way), optional drain, optionally consumed by value; items, len and size_hint equal the plain iterator, position == items yielded, exhaustion finishes per finish behaviour",
                 strategy: iter_strategy,
                 cases: |t| t.pick(4_000, 200_000),
                 run: run_iter,
                 signature: no_signature,
-                essential: &["exhausted", "partial_consumption", "next_back", "length_differs_from_items"],
+                essential: &["exhausted", "partial_consumption", "next_back", "length_differs_from_items", "nth", "internal_iteration", "adaptor_consumed_by_value", "reset_after_exhaustion"],
                 workers: w,
                 decode: Some(decode_iter),
             }),
